@@ -48,14 +48,14 @@ def cer(hbh=0x01010101, e2e=0x02020202, host=None, realm=None, drop=None, apps=(
     avps = _id(host or PEER["host"], realm or PEER["realm"]) + [
         (257, 0x40, None, b"\x00\x01\x7f\x00\x00\x02"), (266, 0x40, None, (0).to_bytes(4, "big")),
         (269, 0x00, None, b"peer-product")]
+    if drop is not None:
+        avps = [a for a in avps if a[0] != drop]
     avps = list(extra) + avps        # foreign AVPs first: validators that look AVPs up by code meet them first
     if dup is not None:
         avps += [a for a in avps if a[0] == dup]
     for a in apps:
         avps.append((260, 0x40, None, [(266, 0x40, None, VENDOR_3GPP.to_bytes(4, "big")),
                                        (258, 0x40, None, a.to_bytes(4, "big"))]))
-    if drop is not None:
-        avps = [a for a in avps if a[0] != drop]
     return refcodec.enc_msg((1, flags, 257, 0, hbh, e2e, avps))
 
 
